@@ -9,6 +9,7 @@ import (
 	"io/fs"
 	"os"
 	"strconv"
+	"time"
 
 	"github.com/avfs/avfs"
 	"github.com/avfs/avfs/vfs/basepathfs"
@@ -283,4 +284,159 @@ func WrapOver(kind int, b avfs.VFS) avfs.VFS {
 		return failfs.New(b)
 	}
 	return b
+}
+
+// ---- shared call tables for the wrapper harnesses (C09, C12) ----
+
+// Mutators are the VFS methods that change the file system.
+var Mutators = []string{"Chmod", "Chown", "Chtimes", "Create", "CreateTemp", "Lchown", "Link", "Mkdir", "MkdirAll", "MkdirTemp", "OpenFile", "Remove", "RemoveAll", "Rename", "Symlink", "Truncate", "WriteFile"}
+
+// NumMutators is len(Mutators).
+const NumMutators = 17
+
+// Scalars carries the (symbolic) scalar arguments of one call.
+type Scalars struct {
+	Mode, Perm fs.FileMode
+	Uid, Gid   int
+	Sec, Size  int64
+	Flag       int
+	Data       []byte
+}
+
+// Mutate calls mutating method name on v. p is the main operand, q a fresh name.
+func Mutate(v avfs.VFS, name, p, q string, s Scalars) (f avfs.File, err error) {
+	switch name {
+	case "Chmod":
+		err = v.Chmod(p, s.Mode)
+	case "Chown":
+		err = v.Chown(p, s.Uid, s.Gid)
+	case "Chtimes":
+		err = v.Chtimes(p, time.Unix(1, 0), time.Unix(s.Sec, 0))
+	case "Create":
+		f, err = v.Create(p)
+	case "CreateTemp":
+		f, err = v.CreateTemp(p, "t*")
+	case "Lchown":
+		err = v.Lchown(p, s.Uid, s.Gid)
+	case "Link":
+		err = v.Link(p, q)
+	case "Mkdir":
+		err = v.Mkdir(q, s.Perm)
+	case "MkdirAll":
+		err = v.MkdirAll(q+"/x", s.Perm)
+	case "MkdirTemp":
+		_, err = v.MkdirTemp(p, "d*")
+	case "OpenFile":
+		f, err = v.OpenFile(p, s.Flag, s.Perm)
+	case "Remove":
+		err = v.Remove(p)
+	case "RemoveAll":
+		err = v.RemoveAll(p)
+	case "Rename":
+		err = v.Rename(p, q)
+	case "Symlink":
+		err = v.Symlink(p, q)
+	case "Truncate":
+		err = v.Truncate(p, s.Size)
+	case "WriteFile":
+		err = v.WriteFile(p, s.Data, s.Perm)
+	}
+	return f, err
+}
+
+// WriteThrough tries every writing method on a handle and closes it.
+func WriteThrough(f avfs.File) {
+	_, _ = f.Write([]byte("Z"))
+	_, _ = f.WriteAt([]byte("Z"), 0)
+	_, _ = f.WriteString("Z")
+	_ = f.Truncate(0)
+	_ = f.Chmod(0)
+	_ = f.Chown(7, 7)
+	_ = f.Sync()
+	_ = f.Close()
+}
+
+// Readers are read-only calls whose result is rendered as text by Render.
+var Readers = []string{"Stat", "Lstat", "ReadDir", "ReadFile", "Readlink", "EvalSymlinks", "Glob", "OpenRead", "OpenReadDir", "WalkDir"}
+
+// NumReaders is len(Readers).
+const NumReaders = 10
+
+func fiString(fi fs.FileInfo) string {
+	return fi.Name() + "," + strconv.FormatInt(fi.Size(), 10) + "," + strconv.FormatUint(uint64(fi.Mode()), 8)
+}
+
+// Render performs read-only call name on p and renders everything it returned.
+func Render(v avfs.VFS, name, p string) string {
+	switch name {
+	case "Stat":
+		fi, err := v.Stat(p)
+		if err != nil {
+			return CodeName(Code(err))
+		}
+		return fiString(fi)
+	case "Lstat":
+		fi, err := v.Lstat(p)
+		if err != nil {
+			return CodeName(Code(err))
+		}
+		return fiString(fi)
+	case "ReadDir":
+		es, err := v.ReadDir(p)
+		out := CodeName(Code(err))
+		for _, e := range es {
+			out += "," + e.Name()
+		}
+		return out
+	case "ReadFile":
+		b, err := v.ReadFile(p)
+		return CodeName(Code(err)) + ":" + string(b)
+	case "Readlink":
+		t, err := v.Readlink(p)
+		return CodeName(Code(err)) + ":" + t
+	case "EvalSymlinks":
+		t, err := v.EvalSymlinks(p)
+		return CodeName(Code(err)) + ":" + t
+	case "Glob":
+		ms, err := v.Glob(p + "/*")
+		out := CodeName(Code(err))
+		for _, m := range ms {
+			out += "," + m
+		}
+		return out
+	case "OpenRead":
+		f, err := v.Open(p)
+		if err != nil {
+			return CodeName(Code(err))
+		}
+		b := make([]byte, 2)
+		n, rerr := f.Read(b)
+		off, _ := f.Seek(0, 1)
+		st := ""
+		if fi, serr := f.Stat(); serr == nil {
+			st = fiString(fi)
+		}
+		_ = f.Close()
+		return strconv.Itoa(n) + "," + CodeName(Code(rerr)) + "," + string(b[:n]) + "," + strconv.FormatInt(off, 10) + "," + st
+	case "OpenReadDir":
+		f, err := v.Open(p)
+		if err != nil {
+			return CodeName(Code(err))
+		}
+		ns, rerr := f.Readdirnames(-1)
+		_ = f.Close()
+		out := CodeName(Code(rerr))
+		for _, n := range ns {
+			out += "," + n
+		}
+		return out
+	case "WalkDir":
+		out := ""
+		err := v.WalkDir(p, func(path string, d fs.DirEntry, err error) error {
+			out += path + ";"
+			return nil
+		})
+		return CodeName(Code(err)) + ":" + out
+	}
+	return ""
 }
